@@ -182,10 +182,13 @@ def kinds_def(t, lite=False):
     getters = ", ".join(f"vt.{m.name}() as usize" for m in t.exported())
     n = len(t.exported())
 
+    # a method marked to use integer results crosses as an integer code, whatever its spelling
+    ints = " ".join(f"int_entry_check(&vt.{m.name}(), \"{T}::{m.name}\")?;" for m in t.exported() if getattr(m.ret, "int_result", None) is True)
+
     def build(expr):
         # what trait_obj! does, in two steps, with the C04 oracles in between
-        vt = "" if lite else f" {{ let vt = o.get_vtbl(); vtable_words_check(vt as *const _ as *const usize, ::core::mem::size_of_val(vt), &[{getters}], \"{T}\")?; }}"
-        return f"let c = {{ use cglue::from2::From2; {T}Base::from2({expr}) }}; let o = into_opaque_checked(c)?;" + vt
+        vt = "" if lite else f" {{ let vt = o.get_vtbl(); vtable_words_check(vt as *const _ as *const usize, ::core::mem::size_of_val(vt), &[{getters}], \"{T}\")?; {ints} }}"
+        return f"let c = {{ use cglue::from2::From2; {T}Base::from2({expr}) }}; let o = into_opaque_checked(c)?; obj_container_check(&o, \"{T}\")?;" + vt
 
     for i, k in enumerate(t.kinds()):
         if k == "box":
